@@ -95,6 +95,15 @@ func c13RoundTrip(r *hx.Run, tag string, p protocol.Protocol, dids []*fx.DIDOps,
 		fail("write-failed", "PrepareTxnFiles: "+err.Error())
 		return
 	}
+	// the same handler and provider serve another batch before anything of this one is checked (a deployment keeps one
+	// handler / provider per protocol version): results already returned must not be disturbed
+	var anchor2 string
+	if len(dids) >= 2 && len(seq) > 0 {
+		other := []*operation.QueuedOperation{dids[(seq[0].did+1)%len(dids)].Queued("C", ns), dids[(seq[0].did+len(dids)-1)%len(dids)].Queued("D", ns)}
+		if info2, err2 := ver.Handler.PrepareTxnFiles(other); err2 == nil {
+			anchor2 = info2.AnchorString
+		}
+	}
 	sameQueued := func(got []*operation.QueuedOperation, want []exp) bool {
 		if len(got) != len(want) {
 			return false
@@ -139,6 +148,9 @@ func c13RoundTrip(r *hx.Run, tag string, p protocol.Protocol, dids []*fx.DIDOps,
 		}()
 		ops, err = ver.Provider.GetTxnOperations(&txn.SidetreeTxn{Namespace: ns, AnchorString: info.AnchorString, TransactionTime: 10, TransactionNumber: 1})
 	}()
+	if anchor2 != "" && err == nil {
+		_, _ = ver.Provider.GetTxnOperations(&txn.SidetreeTxn{Namespace: ns, AnchorString: anchor2, TransactionTime: 11, TransactionNumber: 2})
+	}
 	r.Eval()
 	r.Trace(1)
 	if err != nil {
